@@ -10,6 +10,10 @@ import Hw.Topo.RestrictSurvive
 import Hw.Topo.RestrictMerge
 import Hw.Topo.RenderTop
 import Hw.Topo.RenderSets
+import Hw.Topo.RenderPU
+import Hw.Topo.RestrictExists
+import Hw.Topo.RestrictAllowed
+import Hw.Topo.RestrictUnique
 import Hw.Topo.WF
 import Driver.Topo
 import Driver.Util
@@ -139,7 +143,17 @@ def verdict (st : State) (c : Call) (bd : Dump) (braw : List (List String)) (ad 
           !wfB.isEmpty then [] else ["hypothesis-singletons-fails-on-a-WF-before-dump"]) ++
       -- A8: hypothesis of C08_merge_keeps_pus / C08_pus_exact_whole / C08_restrict_wf_partial: distinct gp_index over the TREE, no
       -- KEEP_STRUCTURE filter on the PU type and on the root's type
-      (if (decide (mergeSafe topo) && decide (machineOnce tree) && setsPresT tree) || !wfB.isEmpty then [] else ["hypothesis-mergeSafe-fails-on-a-WF-before-dump"])
+      (if (decide (mergeSafe topo) && decide (machineOnce tree) && setsPresT tree) || !wfB.isEmpty then [] else ["hypothesis-mergeSafe-fails-on-a-WF-before-dump"]) ++
+      -- B2: what C08_render_pu_level_last proves for every typed tree with PUs as leaves (the invariant read by hwloc_connect_levels,
+      -- no PU level before the last one), and the hypothesis `coverT` of C08_restrict_protected_exists (the allowed sets are covered
+      -- by the PUs / NUMA nodes), evaluated on every WF BEFORE dump
+      (if (puNsT tree && puLevelLast tree) || !wfB.isEmpty then [] else ["hypothesis-pu-level-last-fails-on-a-WF-before-dump"]) ++
+      (if (coverT topo.allowedCpu tPU tree && coverT topo.allowedNode tNUMA tree) || !wfB.isEmpty then []
+        else ["hypothesis-allowed-sets-covered-fails-on-a-WF-before-dump"]) ++
+      -- B2: C08_restrict_allowed_sets, first part: the tree-level clause allowed-sets holds for every WF BEFORE dump
+      (if (allowedOKT topo (flagIncludeDisallowed bd) && decide (osUniqueT tPU tree) && decide (osUniqueT tNUMA tree)) || !wfB.isEmpty
+        then [] else ["hypothesis-allowedOK-or-osindex-unique-fails-on-a-WF-before-dump"]) ++
+      (if notFilteredT bd.filters tree || !wfB.isEmpty then [] else ["hypothesis-notFiltered-fails-on-a-WF-before-dump"])
     let (topo', ret) := restrict topo c.set c.flags
     match ret with
     | .rootRemoved => ("MODEL-UNDEFINED root-would-be-removed", .unknown)
@@ -165,7 +179,26 @@ def verdict (st : State) (c : Call) (bd : Dump) (braw : List (List String)) (ad 
         (if wfB.isEmpty then survivorsCheck tree topo c ad else []) ++
         -- A8: C08_restrict_leaf_root evaluated: mergeSafe and the identity of the root are preserved
         (if (decide (mergeSafe topo') && ident topo'.tree.obj == ident tree.obj) || !(decide (mergeSafe topo) && typedT tree && puLeafT tree)
-          then [] else ["mergeSafe-or-root-not-preserved"])
+          then [] else ["mergeSafe-or-root-not-preserved"]) ++
+        -- B2: C08_restrict_pu_level / C08_restrict_keeps_pu_and_numa / C08_restrict_protected_exists evaluated: the PU level of the
+        -- model's result is its last level, a planned call has a protected object of its own kind, and the model's result and
+        -- hwloc's result both keep a PU and a NUMA node
+        (if (puNsT topo'.tree && puLevelLast topo'.tree) || !(typedT tree && puLeafT tree) then [] else ["pu-level-not-last-after"]) ++
+        -- … and its second part: preserved by the call (the model's allowed sets are compared with hwloc's above)
+        (if allowedOKT topo' (flagIncludeDisallowed bd) || !(allowedOKT topo (flagIncludeDisallowed bd) && okT tree && typedT tree && puLeafT tree)
+          then [] else ["allowedOK-not-preserved"]) ++
+        (if (decide (osUniqueT tPU topo'.tree) || !decide (osUniqueT tPU tree)) && (decide (osUniqueT tNUMA topo'.tree) || !decide (osUniqueT tNUMA tree))
+          then [] else ["osindex-unique-not-preserved"]) ++
+        (if notFilteredT topo'.filters topo'.tree || !notFilteredT bd.filters tree then [] else ["notFiltered-not-preserved"]) ++
+        (if wfB.isEmpty then
+          (match plan topo c.set c.flags with
+           | none => []
+           | some p =>
+             let own := (objsT tree).any (fun x => x.type == (if p.byNode then tNUMA else tPU) && c.set.mem x.osidx.toNat)
+             if own then [] else ["planned-call-without-protected-object"]) ++
+          (if (objsT topo'.tree).any (fun x => x.type == tPU) && (objsT topo'.tree).any (fun x => x.type == tNUMA) &&
+              ad.objs.any (fun o => o.type == tPU) && ad.objs.any (fun o => o.type == tNUMA) then [] else ["no-pu-or-no-numa-after"])
+         else [])
       ("ret=0 errno=ok" ++ (if probs.isEmpty then "" else " MISMATCH " ++ ",".intercalate probs), .restricted topo'.tree)
 
 def sideObjs (t : Tree) : List Hw.Dist.Obj := (rowsT (-1) t).map (fun r => RestrictSide.mkObj r.type r.gp r.osidx)
